@@ -473,7 +473,7 @@ class ExecMixin:
                         if i == nn.as_long():
                             yield Outcome('normal', st0)
                             return
-                        self.bind_target(s.target, el(z3.IntVal(i)), st0)
+                        self.bind_target(s.target, el(z3.IntVal(i), st0), st0)
                         st0.env['it%s' % k] = mk_int(i)
                         for o in self.ex_block(s.body, st0):
                             if o.kind in ('normal', 'continue'):
@@ -512,7 +512,7 @@ class ExecMixin:
                 i = fresh_const('rit', z3.IntSort())
                 rec.pc.append(z3.And(0 <= i, i < n))
                 rec.env['it%s' % k] = SV(INT, i)
-                self.bind_target(s.target, el(i), rec)
+                self.bind_target(s.target, el(i, rec), rec)
                 body_in = [rec]
             else:
                 body_in = []
@@ -634,7 +634,7 @@ class ExecMixin:
         dec0 = None
         if is_for:
             body.pc.append(it < n)
-            self.bind_target(s.target, el(it), body)
+            self.bind_target(s.target, el(it, body), body)
             bodies = [body]
         else:
             bodies = []
@@ -681,8 +681,8 @@ class ExecMixin:
                 return
             return
         try:
-            self.bind_target(s.target, el(it), st)
-        except (OutOfSubset, PathEnd):
+            self.bind_target(s.target, el(it, st), st)
+        except (OutOfSubset, PathEnd, KeyError):
             pass
 
     def check_invariants(self, ls, st, label, node):
